@@ -245,7 +245,7 @@ def drive(ctx, sched, mon, P, passes_requested, opts):
     ctx.trace(("uses0", tuple(sorted(q0.items()))))
 
     count = 0
-    limit = opts.get("max_actions", 200000)
+    limit = opts.get("max_actions", 3000000)
     done = False
     while not done:
         if target == 0 and mon.end_forward_seen:
